@@ -1,1 +1,8 @@
 -- root of the helper-lemma library; one import per file
+import IOptProofs.Laws
+import IOptProofs.EvBasic
+import IOptProofs.EvFin
+import IOptProofs.EvFinCert
+import IOptProofs.EvInv
+import IOptProofs.EvInvFin
+import IOptProofs.EvNum
